@@ -273,5 +273,7 @@ def run(ctx: core.Ctx) -> int:
     py_float_buffers(ctx, py, F)
     py_once(ctx, py, F)
     late_binding(ctx, py, F)
+    from . import c13 as _c13nv
+    _c13nv.named_arrays(ctx, ("vec",))
     return core.finish(ctx, explanation="E2 layout interpretation of python.Model + symbolic evaluation of python.BasicBlock "
                                         "against the temporaries protocol", **META)
